@@ -294,6 +294,26 @@ pub fn analyze_sync<F: FnMut(StatusEvent)>(
         after_cancel: AtomicUsize::new(0),
     });
 
+    analyze_sync_with_probe(
+        state, evaluator, seed, max_depth, artifact, threads, probe, f,
+    )
+}
+
+/// Like `analyze_sync`, with a node clock owned by the caller, who can watch its counters
+/// from another thread while the search runs (to tell a search that makes no progress from
+/// one that is merely slow).
+pub fn analyze_sync_with_probe<F: FnMut(StatusEvent)>(
+    state: State,
+    evaluator: &eval::Evaluator,
+    seed: u64,
+    max_depth: Option<usize>,
+    artifact: Option<SearchArtifact>,
+    threads: Option<usize>,
+    probe: Arc<CancelProbe>,
+    f: &mut F,
+) -> (SearchArtifact, SyncReport) {
+    let cancel_after_nodes = Some(probe.cancel_at.load(Ordering::SeqCst));
+
     let (mut token, _) = CancellationToken::new();
     token.verif_probe = Some(probe.clone());
     if cancel_after_nodes == Some(0) {
